@@ -9,7 +9,8 @@ package main
 //                      is a fresh boolean, functionally consistent with earlier applications, and
 //                      true for (pub(priv), msg, Sign(priv, msg)). Unforgeability is stated by the
 //                      harnesses (which signatures the adversary may hold).
-//   ed25519.Sign       fresh 64 bytes, recorded.   ed25519.GenerateKey: fresh key pair.
+//   ed25519.Sign       fresh 64 bytes, recorded; a signature made for (key, msg) verifies for msg under no
+//                      other key (exclusive ownership).   ed25519.GenerateKey: fresh, pairwise distinct keys.
 //   AES-GCM (modelGCMSeal/Open, used by verifrt.ModelAEAD): Seal yields fresh bytes of
 //                      len(plaintext)+16; Open succeeds iff (key, nonce, ciphertext) is literally a
 //                      recorded Seal (ideal AEAD).
@@ -41,6 +42,8 @@ type sealRec struct {
 }
 
 type cryptoState struct {
+	genPubs [][]Value
+	honest []*SymStr // public keys whose private key the adversary does not hold
 	sha   []shaApp
 	sigs  []sigRec
 	vers  []verRec
@@ -161,10 +164,18 @@ func init() {
 			same := tAnd(boolTerm(eqStr(pub, p.pub)), tAnd(boolTerm(eqStr(msg, p.msg)), boolTerm(eqStr(sig, p.sig))))
 			r.assertTerm(tImplies(same, tIff(res, p.res)))
 		}
+		matches := tFalse
 		for _, s := range cs.sigs {
 			pubOf := &SymStr{b: s.priv.b[32:64], n: int64(32)}
 			same := tAnd(boolTerm(eqStr(pub, pubOf)), tAnd(boolTerm(eqStr(msg, s.msg)), boolTerm(eqStr(sig, s.sig))))
 			r.assertTerm(tImplies(same, res))
+			matches = tOr(matches, same)
+			// exclusive ownership: a signature produced for (key, msg) verifies for that message under no other key
+			r.assertTerm(tImplies(tAnd(res, tAnd(boolTerm(eqStr(msg, s.msg)), boolTerm(eqStr(sig, s.sig)))), boolTerm(eqStr(pub, pubOf))))
+		}
+		// unforgeability: under an honest key only signatures produced by Sign in this run verify
+		for _, h := range cs.honest {
+			r.assertTerm(tImplies(tAnd(boolTerm(eqStr(pub, h)), res), matches))
 		}
 		cs.vers = append(cs.vers, verRec{pub, msg, sig, res})
 		return termToValue(res), actDone
@@ -191,9 +202,23 @@ func init() {
 		cs.sigs = append(cs.sigs, sigRec{priv: priv, msg: msg, sig: ss})
 		return sliceOf(sig), actDone
 	})
+	reg(vrt+"HonestKey", func(r *Run, g *G, a []Value) (Value, action) {
+		cs := r.crypto()
+		if len(cs.vers) > 0 {
+			engineFail("HonestKey must be declared before the first Verify")
+		}
+		cs.honest = append(cs.honest, r.symOf(a[0]))
+		return nil, actDone
+	})
 	reg("crypto/ed25519.GenerateKey", func(r *Run, g *G, a []Value) (Value, action) {
 		seed := r.freshBytes("ed25519.seed", 32)
 		pub := r.freshBytes("ed25519.pub", 32)
+		// freshly generated keys are pairwise distinct
+		cs := r.crypto()
+		for _, prev := range cs.genPubs {
+			r.assertTerm(tNot(eqCells(pub, prev)))
+		}
+		cs.genPubs = append(cs.genPubs, pub)
 		priv := append(append([]Value{}, seed...), pub...)
 		return Tuple{sliceOf(append([]Value{}, pub...)), sliceOf(priv), Iface{}}, actDone
 	})
@@ -328,3 +353,59 @@ func init() {
 }
 
 func (r *Run) nextOpaque() int { r.opaqueCount++; return r.opaqueCount }
+
+// ---- encoding/binary little-endian 64-bit: eight byte cells b0..b7 with v = sum b_i * 256^i (linear) ----
+
+func (r *Run) le64Cells(v Value) []Value {
+	switch x := v.(type) {
+	case int64:
+		out := make([]Value, 8)
+		u := uint64(x)
+		for i := range out {
+			out[i] = int64(byte(u >> (8 * uint(i))))
+		}
+		return out
+	case *Term:
+		cells := r.freshBytes("le64", 8)
+		var sum *Term = mkZConst(big.NewInt(0))
+		for i, c := range cells {
+			sum = rawAdd(sum, rawMul(c.(*Term), mkZConst(new(big.Int).Lsh(big.NewInt(1), uint(8*i)))))
+		}
+		val := x
+		if x.signed { // defensive: callers convert to uint64 first
+			val = wrap(x, 64, false)
+		}
+		r.assertTerm(tEqRaw(sum, val))
+		return cells
+	}
+	engineFail("le64Cells %T", v)
+	return nil
+}
+
+func init() {
+	reg := func(name string, f intrinsic) { intrinsics[name] = f }
+	reg("(encoding/binary.littleEndian).PutUint64", func(r *Run, g *G, a []Value) (Value, action) {
+		b := a[1].(Slice)
+		if !r.check(g, r.cmpLen(b.ln, ">=", 8), "index out of range [7]", r.curPosPrev(g)) {
+			return nil, actPanic
+		}
+		for i, c := range r.le64Cells(a[2]) {
+			b.a[i] = c
+		}
+		return nil, actDone
+	})
+	reg("(encoding/binary.littleEndian).AppendUint64", func(r *Run, g *G, a []Value) (Value, action) {
+		return r.builtinAppend(g, a[1].(Slice), sliceOf(r.le64Cells(a[2]))), actDone
+	})
+	reg("(encoding/binary.littleEndian).Uint64", func(r *Run, g *G, a []Value) (Value, action) {
+		b := a[1].(Slice)
+		if !r.check(g, r.cmpLen(b.ln, ">=", 8), "index out of range [7]", r.curPosPrev(g)) {
+			return nil, actPanic
+		}
+		var sum *Term = mkZConst(big.NewInt(0))
+		for i := 0; i < 8; i++ {
+			sum = rawAdd(sum, rawMul(byteTerm(b.a[i]), mkZConst(new(big.Int).Lsh(big.NewInt(1), uint(8*i)))))
+		}
+		return termToValue(wrap(sum, 64, false)), actDone
+	})
+}
